@@ -211,10 +211,65 @@ pub fn run(h: &H) {
             h.guard(idx, "threads sharing contexts and the grid cache", || threaded(h, idx, &mut rng));
         } else if idx % 16 == 14 {
             h.guard(idx, "file based macros", || file_macros(h, idx, &files));
+        } else if idx % 16 == 13 {
+            h.guard(idx, "what one operation leaves behind is invisible to the others", || leftovers(h, idx, &mut rng));
         } else {
             h.guard(idx, "history of registry operations", || history(h, idx, &mut rng, &files));
         }
     }
+}
+
+/// Operations that leave something behind when applied (stack pipelines with more pushes than
+/// pops; grid operators filling the cache) interleaved with operations that would notice
+/// (pipelines that pop, flip or roll deeper than they pushed): every fingerprint stays what it was
+/// at instantiation, in this and in other contexts
+fn leftovers(h: &H, idx: u64, rng: &mut Rng) {
+    let leavers = ["stack push=1,2 | addone", "addone | stack push=3,4,1 | noop", "push v_1 v_2 | addone", "stack push=1 | stack push=2 | stack swap"];
+    let takers = ["addone | stack pop=1", "stack pop=2,1 | addone", "stack push=1 | stack pop=1,2", "stack push=1 | stack roll=3,1 | stack pop=1", "addone | pop v_1", "stack push=1 | stack flip=1,2"];
+    let mut ctxs: Vec<Minimal> = (0..1 + rng.below(2)).map(|_| Minimal::new()).collect();
+    let pts: Vec<Coor4D> = (0..3).map(|i| Coor4D([1.5 + i as f64, 2.25, 3.125, 4.0625])).collect();
+    let mut live: Vec<(usize, &str, OpHandle, Vec<u64>, Vec<u64>)> = Vec::new();
+    let fp = |ctx: &Minimal, op: OpHandle, d: D| -> Vec<u64> {
+        let mut data = pts.clone();
+        let n = apply_set(ctx, op, d, &mut data);
+        let mut out = vec![n as u64];
+        for c in &data {
+            for x in c.0 {
+                out.push(canon(x));
+            }
+        }
+        out
+    };
+    h.distinct(crate::rng::mix(idx, 13));
+    for step in 0..12 {
+        let k = rng.below(ctxs.len());
+        let def = if rng.chance(0.5) { *rng.pick(&leavers) } else { *rng.pick(&takers) };
+        if let Ok(op) = ctxs[k].op(def) {
+            let (f, i) = (fp(&ctxs[k], op, D::F), fp(&ctxs[k], op, D::I));
+            live.push((k, def, op, f, i));
+        }
+        // apply a random live operation a few times, then look at all of them again
+        if !live.is_empty() {
+            let (k2, _, op2, _, _) = &live[rng.below(live.len())];
+            for _ in 0..1 + rng.below(3) {
+                let _ = fp(&ctxs[*k2], *op2, if rng.chance(0.5) { D::F } else { D::I });
+            }
+        }
+        for (k3, def3, op3, f3, i3) in &live {
+            h.eval(2);
+            if fp(&ctxs[*k3], *op3, D::F) != *f3 || fp(&ctxs[*k3], *op3, D::I) != *i3 {
+                v(
+                    h,
+                    idx,
+                    "behaviour-of-a-live-handle-changed/after-another-operation-was-applied",
+                    J::obj().set("definition", *def3).set("history_step", step as i64).set("live_operations", J::Arr(live.iter().map(|l| J::s(l.1)).collect())),
+                );
+                return;
+            }
+        }
+    }
+    h.class("leftovers/stack");
+    let _ = &mut ctxs;
 }
 
 fn file_macros(h: &H, idx: u64, files: &BTreeMap<String, String>) {
